@@ -332,16 +332,17 @@ def _fval(n):
     return None
 
 
-def _castrange_rule(chk, tu):
+def _castrange_rule(chk, tu, rule="C14-CASTRANGE", desc=None, floor=4, only=None, need_nan=False):
     """Converting a double outside the target range to a 64-bit integer is undefined in C (x86 yields INT64_MIN).
     Comparisons and conversions are exact only if every (int64_t)d / (uint64_t)d is reached with
     -2^63 <= d < 2^63 (0 <= d < 2^64).  Note (double)INT64_MAX is 2^63 itself: `d > (double)INT64_MAX` being
     false does NOT exclude d == 2^63."""
-    rule = "C14-CASTRANGE"
-    chk.rule(rule, "every double -> 64-bit integer cast is dominated by range checks that put the value strictly inside the target range")
+    chk.rule(rule, desc or "every double -> 64-bit integer cast is dominated by range checks that put the value strictly inside the target range")
     n = 0
     LIM = {"int64_t": (-2.0 ** 63, 2.0 ** 63), "uint64_t": (0.0, 2.0 ** 64), "long": (-2.0 ** 63, 2.0 ** 63), "unsigned long": (0.0, 2.0 ** 64)}
     for fn in tu.funcs.values():
+        if only is not None and fn.name not in only:
+            continue
         sites = [x for x in fn.nodes if x.k == "cast" and x.t in LIM and x.kids and (x.kids[0].t or "") in ("double", "float")]
         if not sites:
             continue
@@ -376,6 +377,9 @@ def _castrange_rule(chk, tu):
                         up = True
                     if (o == ">=" and b >= lo) or (o == ">" and b >= lo) or (o == "==" and lo <= b < hi):
                         low = True
+                if need_nan and not any(ln is not None and ("isnan" in ln.macro_names() or any(c.k == "call" and (c.callee or "").lstrip("_").startswith("isnan") for c in ln.walk()))
+                                        and op == "==" and (rn is None or rn.v == 0) for (op, l, r, _, ln, rn) in ps):
+                    problems.append("NaN not excluded")
                 if not up:
                     problems.append("no upper bound below %s" % ("2^63" if hi == 2.0 ** 63 else "2^64"))
                 if not low:
@@ -387,7 +391,7 @@ def _castrange_rule(chk, tu):
                               % (x.text(), "; ".join(sorted(set(problems)))))
             else:
                 chk.ok(rule, "%s: %s only for values inside the %s range" % (fn.name, x.text(), x.t))
-    chk.floor(rule, 4, n)
+    chk.floor(rule, floor, n)
 
 
 def _lossy_rule(chk, tu):
